@@ -453,3 +453,71 @@ def runSess (kfuel fuel : Nat) (cwdS : Str) (cwd : Loc) (loc : Str) (offset leng
     | none => (rest.1, rest.2)
 
 end IrVerif.Path
+
+/-! ## `set_base_dir`: which tensors of a loaded model get the base directory -/
+namespace IrVerif.Path
+
+mutual
+/-- a graph: its initializers' tensors and its nodes -/
+inductive GTree where
+  | mk (inits : List String) (nodes : List NTree)
+/-- a node: the tensors held in its TENSOR / TENSORS attributes, the graphs held in its
+GRAPH / GRAPHS attributes -/
+inductive NTree where
+  | mk (tattrs : List String) (gattrs : List GTree)
+end
+
+def GTree.inits : GTree → List String
+  | GTree.mk i _ => i
+
+/-- initializers of directly attached subgraphs (the GRAPH / GRAPHS branches of `_all_tensors`,
+external_data.py:156-165) -/
+def initsOf : List GTree → List String
+  | [] => []
+  | g :: gs => g.inits ++ initsOf gs
+
+mutual
+/-- what `_all_tensors` yields for one visited node (external_data.py:150-165) followed by what it
+yields for the nodes `RecursiveGraphIterator` visits next: the nodes of the node's subgraphs
+(traversal.py `_recursive_node_iter`: the node, then its subgraphs, depth first) -/
+def walkNode : NTree → List String
+  | NTree.mk ta gs => ta ++ initsOf gs ++ walkGraphs gs
+def walkGraphs : List GTree → List String
+  | [] => []
+  | g :: gs => walkGraphNodes g ++ walkGraphs gs
+def walkGraphNodes : GTree → List String
+  | GTree.mk _ nodes => walkNodes nodes
+def walkNodes : List NTree → List String
+  | [] => []
+  | n :: ns => walkNode n ++ walkNodes ns
+end
+
+/-- `_all_tensors(graph, include_attributes=True)` (external_data.py:131-165): the initializers of
+the graph, then the attribute tensors found by walking all nodes recursively. -/
+def allTensors (g : GTree) : List String := g.inits ++ walkGraphNodes g
+
+mutual
+/-- every tensor position anywhere in the model: initializers and attribute tensors of the graph and
+of all graphs nested in it at any depth -/
+def reachGraph : GTree → List String
+  | GTree.mk i nodes => i ++ reachNodes nodes
+def reachNodes : List NTree → List String
+  | [] => []
+  | n :: ns => reachNode n ++ reachNodes ns
+def reachNode : NTree → List String
+  | NTree.mk ta gs => ta ++ reachGraphs gs
+def reachGraphs : List GTree → List String
+  | [] => []
+  | g :: gs => reachGraph g ++ reachGraphs gs
+end
+
+/-- the seeded variant that iterates only the top-level nodes (`for node in graph`), kept to show
+what the theorem excludes -/
+def allTensorsShallow : GTree → List String
+  | GTree.mk i nodes => i ++ shallowNodes nodes
+where
+  shallowNodes : List NTree → List String
+    | [] => []
+    | NTree.mk ta gs :: ns => ta ++ initsOf gs ++ shallowNodes ns
+
+end IrVerif.Path
